@@ -1167,7 +1167,7 @@ impl<'a, 'b> Gen<'a, 'b> {
             Shape::Bool => &[".foo", ".[0]", ".[]", "keys", "length", "(. + 1)", "(. - 1)", "has(\"a\")", "sort", "(. * 2)", "(1 / .)", "to_entries", "explode", "tonumber", "add", "utf8bytelength", "ascii_upcase", "startswith(\"a\")", "contains(1)", "split(\",\")", "join(\",\")", "fromjson"],
             Shape::Null => &[".[]", "keys", "has(\"a\")", "sort", "(1 - .)", "(. * 2)", "(. / 2)", "explode", "tonumber", "utf8bytelength", "startswith(\"a\")", "to_entries", "(. % 2)"],
             Shape::Arr(_) | Shape::ArrOf(_) => &[".foo", ".[\"a\"]", "(. + 1)", "(. - 1)", "(. + \"a\")", "(. + {})", "(. * 2)", "(. / 2)", "has(\"a\")", "explode", "tonumber", "ascii_downcase", "startswith(\"a\")", "utf8bytelength", "ltrimstr(1) | .foo", "(. % 2)", "split(\",\")", "fromjson", "contains(\"a\")", "({} + .)", ".[\"a\"]?, .foo", "setpath([\"a\"]; 1)", "(.a = 1)", "del(.a)", "has(\"0\")"],
-            Shape::Obj(_) => &[".[0]", "(. + 1)", "(. - {})", "(. + [])", "(. * 2)", "(. / {})", "has(0)", "sort", "explode", "tonumber", "ascii_downcase", "utf8bytelength", "flatten", "unique", "startswith(\"a\")", "join(\",\") | .[0]", "(. % 2)", "split(\",\")", "fromjson", "contains(1)", "setpath([0]; 1)", "(.[0] = 1)", "del(.[0])", ".[1:2]", "floor", "sqrt", "min | .[0]", "reverse | .foo", "index(\"a\")", "{(.): 1}"],
+            Shape::Obj(_) => &[".[0]", "(. + 1)", "(. - {})", "(. + [])", "(. * 2)", "(. / {})", "has(0)", "sort", "explode", "tonumber", "ascii_downcase", "utf8bytelength", "flatten", "unique", "startswith(\"a\")", "join(\",\") | .[0]", "(. % 2)", "split(\",\")", "fromjson", "contains(1)", "setpath([0]; 1)", "(.[0] = 1)", "del(.[0])", ".[1:2]", "floor", "sqrt", "min | .[0]", "reverse | .foo", "{(.): 1}"],
             Shape::Any => return None,
         };
         let a = *self.u.pick(atoms);
